@@ -39,7 +39,7 @@ def seeded():
     stats = ("The changes were collected in rounds of three per property (ids -1..-3: first round; -4..-6: second round, sub-agents told to avoid the obvious "
              "places; -7..-9: third round, sub-agents told to look for interactions; -10..-12: fourth round, sub-agents told to look at rarely used entry points and options, "
              "order / duplication / identity of results, error results, empty inputs and arithmetic on lengths; -13..-15: fifth round, sub-agents told to look at state that "
-             "survives between calls, member counts and map order, numeric and Unicode boundaries, and the least used of several hand-copied variants). Of the %d confirmed changes %d are caught by the check of their own property, "
+             "survives between calls, member counts and map order, numeric and Unicode boundaries, and the least used of several hand-copied variants; -16..-18: sixth round, one change of each of three kinds per property: two cooperating sites that are each harmless alone, a violation that needs a quantity to cross a fixed internal limit, and a particular sequence of calls or rare combination of options, entry point and data). Of the %d confirmed changes %d are caught by the check of their own property, "
              "%d by the check of another property (where the defect belongs, e.g. reuse defects by C07), %d are not caught (reason in the note); %d were missed on the "
              "first run and led to a general extension of a check.\n\n" % (tot, own, tot - own - notc, notc, stren))
     head = ["### 8.4 Seeded property-breaking changes and which check catches which\n\n", stats,
